@@ -32,7 +32,8 @@ import c12_nasfloat  # noqa: E402
 
 ID = "C12"
 LEAN_MODULES = ["PyYetiVerif.Props.C12", "PyYetiVerif.Props.C12Multi", "PyYetiVerif.Props.C12Acc",
-                "PyYetiVerif.Props.C12Best", "PyYetiVerif.Props.C12Foreign", "PyYetiVerif.Audit.C12"]
+                "PyYetiVerif.Props.C12Best", "PyYetiVerif.Props.C12Foreign", "PyYetiVerif.Props.C12Comments",
+                "PyYetiVerif.Audit.C12"]
 AUDIT_FILE = "PyYetiVerif/Audit/C12.lean"
 THEOREMS = [
     "PyYetiVerif.C12." + n
@@ -49,7 +50,7 @@ THEOREMS = [
         "fixed_branch_best_precision last_branches_best_precision sci_best_precision sci_slack_attained "
         "unnormalised_mantissa_is_closer mixed_branch_picks_neg kept_comments_complete rdcards_foreign_block tables_best_ok format_float_best_precision "
         "written_card_lines_no_match rdcards_foreign_written rdcards_foreign_boundary rdcards_written_cards "
-        "rdcards_assembled_written"
+        "rdcards_assembled_written kept_comments_placement kept_comments_rules kept_comments_foreign_card kept_comments_erase"
     ).split()
 ]
 TRUSTED = [
@@ -143,8 +144,13 @@ PARTIAL = (
     "rdcards_assembled_written: a card written under another name is not seen iff name.lower() is not a prefix "
     "of its padded 8-column name field - rdcards_foreign_boundary: GRID does read GRIDX and GRID*); foreign "
     "lines that are not written cards still need the hypothesis of rdcards_foreign_block; for keep_comments=True "
-    "kept_comments_complete proves that every comment line is kept once and in order, the exact place of a "
-    "comment among the cards (in front of the next matching card) is modelled and tied only; regex matching "
+    "kept_comments_complete (every comment line kept once, in order, any file) and now the placement on files "
+    "made of comment lines and written cards: kept_comments_placement / kept_comments_rules (a matching card is "
+    "preceded by exactly the comment lines met since the previous matching card - a foreign card in between "
+    "flushes nothing, kept_comments_foreign_card - and the comments behind the last matching card come last), "
+    "kept_comments_erase (keep_comments=False gives the same items without the comment entries); a comment line "
+    "INSIDE the span of a card (between its first line and a continuation line) is outside these theorems: the "
+    "model puts it behind that card, tied by the rdcards-options stream only; regex matching "
     "carries no theorem beyond rdcards_multi's 'any matcher'; (5) numpy.float32 arguments equal to the float32 rounding of a branch "
     "literal are outside the model (NumPy compares in float32 there); `rowsep` does not exist in this code base; "
     "card_line_roundtrip_partial is kept for the record (superseded by card_roundtrip_small)"
@@ -157,7 +163,7 @@ MANIFEST = {
                   "the generic reader with all options on multi-card files (block-by-block reading, array shapes, "
                   "dictionary keys, kept comments, tabs, fsearch); a written card of another name is invisible to the "
                   "reader exactly when name.lower() is not a prefix of its padded name field.  Tied by exact correspondence only: the choice of the "
-                  "negative mixed branch in the decade 1e-10..1e-9 of format_float16, the place of kept comments, regular-expression names (matcher verdicts from Python's re), NumPy's "
+                  "negative mixed branch in the decade 1e-10..1e-9 of format_float16, the place of a kept comment that stands inside a card's span, regular-expression names (matcher verdicts from Python's re), NumPy's "
                   "dtype conversions, numpy.float32 arguments",
     "technique": "Lean 4 model + ast translator (NasFloatTables) + differential correspondence",
 }
@@ -1525,6 +1531,7 @@ FAM_NPFIELD = "wtcard-numpy-scalar-field-differs-from-python-scalar"
 FAM_NODATA = "rdcards-no-data-return"
 FAM_PREFIX = "rdcards-name-prefix-or-case-not-selected"
 FAM_COMMENTS = "rdcards-keep-comments"
+FAM_PLACE = "rdcards-keep-comments-placement"
 
 
 _ORACLE_STATS = {}
@@ -1611,6 +1618,29 @@ def _file_failures(bulk, parts, name):
                     {"read": repr(gotc)[:600]}, {"comments": wantc[:20], "cards": repr(exp)[:400]}))
         return out
     _stat("files-kept-comments-checked")
+    # kept_comments_placement: a matching card is preceded by the comment lines met since the previous matching
+    # card (foreign cards / foreign lines in between do not flush them); what is pending at the end comes last
+    seq, pend, k, carried = [], [], 0, False
+    for p_ in parts:
+        if p_["t"] == "raw":
+            pend += [ln for ln in io.StringIO(p_["text"]) if ln.startswith("$")]
+        elif p_["text"].lower().startswith(low):
+            seq += pend + [exp[k]]
+            pend, k = [], k + 1
+        elif pend:
+            carried = True
+    seq += pend
+    if len([x for x in seq if isinstance(x, str)]) == len(wantc):  # (no comment line inside a card's own text)
+        okp = len(gotc) == len(seq) and all(
+            (a == b) if isinstance(a, str) or isinstance(b, str) else _same_list(a, b) for a, b in zip(gotc, seq))
+        if not okp:
+            out.append((FAM_PLACE, "keep_comments=True: a card is not preceded by exactly the comment lines met since "
+                        "the previous matching card, or the trailing comments do not come last", inp,
+                        {"read": repr(gotc)[:600]}, {"expected": repr(seq)[:600]}))
+            return out
+        _stat("files-kept-comments-placement-checked")
+        if carried:
+            _stat("files-comment-carried-over-a-foreign-card")
     lst = [c[1:] for c in exp]
     if any(len(c) == 0 for c in lst):
         return out  # `val[0]` of a card without fields: outside the quantifier (cards of 1..60 fields)
